@@ -104,6 +104,9 @@ func main() {
 			}
 			props.Prepare(prog)
 			props.Registry[id](prog, rep)
+			if *tier == "thorough" {
+				props.ThoroughSelfCheck(prog, rep)
+			}
 		}()
 		if c := rep.Finish(*verif, prog, started, seed); c > code {
 			code = c
